@@ -44,7 +44,7 @@ Definition mismatches (cs : list case) : list N :=
                            on a Go map are observed as a crash instead (the runtime aborts on them)
    Result class 2 (not classified by the driver) fires none of these. *)
 Definition is_e2e (i : entry_input) : bool :=
-  match i with EE2EInbound _ _ | EE2EOutbound _ _ | EE2EStress _ | EPeersListStalled _ _ => true | _ => false end.
+  match i with EE2EInbound _ _ | EE2EOutbound _ _ | EE2EStress _ | EPeersListStalled _ _ | EBlockStress | EMatchStress => true | _ => false end.
 
 Definition violation (c : case) : option string :=
   match obs c with
